@@ -270,6 +270,22 @@ async def run_ws_api(backend, path, cases, counters, late_viols=None):
                 oks2 = R.ok_frames(conn2 if j % 2 else conn, n2)
                 cases.append({"shape": "delegated", "label": "delegation=transplanted-after-genuine-accepted", "raw": thief, "token": tk2, "consistent": False,
                               "ok": oks2[-1][1][2] if oks2 and len(oks2[-1][1]) > 2 else None})
+            # ---- created_at 0 in the JSON, id and sig made for the second in which the relay handles the message (the
+            # event library puts "now" in place of a zero timestamp): what is acknowledged must be what was sent
+            import time as _time
+
+            for j in range(4):
+                key = seeds.keys[j % len(seeds.keys)]
+                tk2 = subm.token("zero-ts")
+                real = ref.make_event(key, kind=1, created_at=int(_time.time()) + (j % 2), tags=[], content=tk2)
+                raw0 = dict(real, created_at=0)
+                n2 = rig.rec.n
+                await conn.cmd(["EVENT", raw0])
+                await rig.quiesce()
+                oks2 = R.ok_frames(conn, n2)
+                counters["zero_timestamp_submissions"] = counters.get("zero_timestamp_submissions", 0) + 1
+                cases.append({"shape": "kind1", "label": "created_at=0/id-made-for-the-relay's-clock", "raw": raw0, "token": tk2, "consistent": False,
+                              "ok": oks2[-1][1][2] if oks2 and len(oks2[-1][1]) > 2 else None, "by_token_only": True})
         await rig.quiesce()
         d = dump.dump(rig)
         pushed = [f[2] for n, f in watcher.parsed_frames() if isinstance(f, list) and len(f) >= 3 and f[0] == "EVENT" and isinstance(f[2], dict)]
